@@ -316,8 +316,8 @@ LEVEL_TEXT = ("Theorems for every lint-clean closed circuit, every order choice 
               "identical circuit and registry; (C03_roundtrip_equiv_bb, pins not marked as outputs) in both styles with any constants the read "
               "succeeds, gives the same name, inputs, outputs and registry, every input pin on the same net (or none), every output pin driving "
               "the same net, and an equivalent circuit at every output and every blackbox input pin. roundtrip_identical_full / "
-              "roundtrip_equiv_full (wf_rt alone) are kept as statements: without wf_bb they are not theorems (a gate called ff0.x, a blackbox "
-              "type called and). Every generated circuit is additionally decided by the Coq specification on the recorded read-back circuits "
+              "roundtrip_equiv_full (wf_rt alone) are kept as statements and refuted as stated (C03_full_statements_need_wf_bb: a blackbox "
+              "type called and satisfies wf_rt). Every generated circuit is additionally decided by the Coq specification on the recorded read-back circuits "
               "(identity of the graph where claimed; interface, registry, pin nets and exhaustive function comparison otherwise), directly and "
               "through to_file/from_file.")
 LEVEL_NOTE = ("Trusted: Coq kernel + vm_compute, std++, Lark, the harness tokenizer of the writer's text (the text layer - blanks after "
